@@ -56,8 +56,14 @@ def removeType (w : WL) (c : Nat) (t : WT) : WL :=
   match get w c with
   | none => w
   | some e => if e.ty = .block ∧ t = .have then w else del w c
-/-- Wantlist.Entries: sorted by priority, highest first -/
-def entries (w : WL) : List Ent := w.mergeSort (fun a b => decide (a.prio ≥ b.prio))
+/-- insertion into a list sorted by priority, highest first -/
+def insertE (e : Ent) : List Ent → List Ent
+  | [] => [e]
+  | x :: r => if e.prio ≥ x.prio then e :: x :: r else x :: insertE e r
+/-- Wantlist.Entries: sorted by priority, highest first (priorities within one list are distinct, so
+every sorting algorithm gives this order; a structurally recursive one keeps the model evaluable by
+`decide`) -/
+def entries (w : WL) : List Ent := w.foldr insertE []
 end WL
 
 /-- sentAt map: cid ↦ epoch -/
